@@ -90,6 +90,10 @@ func vAssert(c bool, msg string) {
 	}
 }
 
+// vAssertPossible: under the engine, a violation if cond cannot hold on this
+// path; natively an ordinary assertion on the concrete run.
+func vAssertPossible(c bool, msg string) { vAssert(c, msg) }
+
 func vReach(label string)            {}
 func vKnown(class string, pred bool) {}
 func vParam(name string, def int) int {
